@@ -125,6 +125,14 @@ def moveaxis(w, seed, spec):
                 for x, y in zip(xs, ys):
                     if not close(y, np.moveaxis(x, src, dst)):
                         fails.append(f'MoveAxisOperator({sarg},{darg}) differs from numpy.moveaxis on leaf {x.shape} of {shapes}')
+                # transpose / inverse on the same mixed-rank pytree: they must undo the move on EVERY leaf
+                for what in ('T', 'I'):
+                    try:
+                        back = getattr(op, what)(ys)
+                        if any(not close(b, x) for b, x in zip(back, xs)):
+                            fails.append(f'MoveAxisOperator({sarg},{darg}).{what} does not undo the move on leaves {shapes}')
+                    except Exception as e:      # noqa: BLE001
+                        fails.append(f'MoveAxisOperator({sarg},{darg}).{what} on leaves {shapes} raised {type(e).__name__}')
                 if len(fails) > 5:
                     return fails
     # every product of two move-axis operators must reduce to an operator with the same action
